@@ -87,6 +87,7 @@ type Job struct {
 	ShardDepth    int               `json:"shard_depth,omitempty"`
 	RootPrefix    []Decision        `json:"root_prefix,omitempty"`
 	SetupEachPath bool              `json:"setup_each_path,omitempty"`
+	NoSetupGuard  bool              `json:"no_setup_guard,omitempty"`
 	Gen           int               `json:"gen,omitempty"`
 	ShedMS        int               `json:"shed_ms,omitempty"`
 	Base          string            `json:"base,omitempty"`
@@ -356,6 +357,9 @@ func (in *Interp) runJob(job Job, shed func([][]Decision), setupEachPath bool) (
 		if serr != "" {
 			res.SetupError = serr
 			return
+		}
+		if !job.NoSetupGuard {
+			ex.Guard = newSetupGuard(in.i, "github.com/flamego/flamego")
 		}
 	}
 
